@@ -174,7 +174,67 @@ def run_c18(ctx):
                 summary="%d strings, %d integers" % (r["strings"], r["integers"]))
 
 
+# ------------------------------------------------------------------------------------------- C03 / C05
+def run_c03(ctx):
+    r = run_engine(ctx, "mc_spend", ["--mode", "c03"])
+    if "infra_error" in r:
+        return _infra("model_checking", r)
+    cov = {
+        "states": r["sessions"], "transitions": r["steps"], "traces_validated_against_impl": r["sessions"] - r["out_of_scope"],
+        "samples": r["samples"] or ["(none)"], "exhaustive": True,
+        "bounds": ["12 output types (bare P2PK, bare multisig, P2PKH compressed/uncompressed, P2SH multisig, P2WPKH, P2WSH multisig/checksig, P2SH-P2WPKH, P2SH-P2WSH, P2TR key path, P2TR script path with path length 0..3, with/without annex) x position of the spending input x referenced output x selection {auto, right, wrong input, out of range} x every single-item deviation of the satisfaction (bit flips, removed/duplicated/extra items, fields altered after signing) x every single non-activation flag toggled from STANDARD; the six real-chain pairs; "
+                   + ("all bit positions of every satisfaction item on the base shape" if ctx.tier != "quick" else "bit flips at first/middle/last byte of every item")],
+        "sessions_refused": r["refused"], "sessions_valid": r["valid"], "sessions_invalid": r["invalid"], "sessions_out_of_scope": r["out_of_scope"],
+        "by_type": r["by_type"], "outcome_histogram": r["outcomes"], "distinct_outcomes": len(r["outcomes"]),
+    }
+    vac = None
+    if r["valid"] < 100 or r["invalid"] < 100 or r["refused"] < 50 or len(r["by_type"]) < 8:
+        vac = "vacuous exploration: %s" % r["by_type"]
+    return dict(level="model_checking", coverage=cov, violations=r["violations"],
+                assumptions=["verdict oracle: verify_input() of the reference model (self-tested on six real-chain spends); set-up oracle: the reference session plan (input, amount, sigversion, scripts per phase, initial stack, every micro-step state)",
+                             "the session counts as valid iff it finishes without error and its final stack is non-empty with a true top element and exactly one element for witness scripts or under CLEANSTACK (the property's wording)",
+                             "domain: P2SH/WITNESS/TAPROOT are never removed from the flag set (without its activation flag consensus executes nothing for the output type); taproot spends have one input (the tool receives one funding transaction); unknown witness/leaf versions and out-of-range prevout indices (C15) are out of scope",
+                             "extended invalid satisfactions (non-push-only scriptSig with P2SH, scriptSig with native witness program, witness on legacy output, conditional/altstack spanning scripts, 521-byte witness item) are reported under their own 'extended:' keys"],
+                summary="%d sessions (%d valid, %d invalid, %d refused), %d steps" % (r["sessions"], r["valid"], r["invalid"], r["refused"], r["steps"]), infra_error=vac)
+
+
+def run_c05(ctx):
+    r = run_engine(ctx, "mc_spend", ["--mode", "c05"])
+    if "infra_error" in r:
+        return _infra("model_checking", r)
+    r3 = run_engine(ctx, "mc_spend", ["--mode", "c03"])   # the commitment phase through Instance::configure_tx_txin + step()
+    viol = list(r["violations"])
+    sess_tap = 0
+    if "infra_error" not in r3:
+        viol += [v for v in r3["violations"] if v["key"].startswith("commitment:")]
+        sess_tap = r3["by_type"].get("p2tr-script", 0)
+    c = r["classes"]
+    cov = {
+        "states": r["cases"], "transitions": r["iterate_steps"], "traces_validated_against_impl": r["cases"] + sess_tap,
+        "samples": r["samples"] or ["(none)"], "exhaustive": True,
+        "bounds": ["TaprootCommitmentEnv driven directly: path lengths " + ("0..128 (every value)" if ctx.tier != "quick" else "{0,1,2,3,64,127,128}") + ", scripts of length 0/1/252/253, leaf versions {c0,c2,00,fe,50}, nodes below/above/equal to the running hash, both parities; every single-field corruption (parity bit, each control-byte bit, internal-key bytes, each node, script, program bytes, dropped/extra node, swapped nodes), internal keys off the curve / >= p",
+                   "commitment phase through configure_tx_txin + step(): %d tapscript sessions of the C03 generator (leaf hash handed to execdata, intermediate hashes, verdict)" % sess_tap],
+        "case_classes": c, "valid_commitments": c.get("valid:valid", 0), "invalid_commitments": sum(v for k, v in c.items() if k.startswith("invalid:")),
+    }
+    vac = None
+    if c.get("valid:valid", 0) < 10 or len(c) < 8:
+        vac = "vacuous exploration: %s" % c
+    return dict(level="model_checking", coverage=cov, violations=viol,
+                assumptions=["oracle: taproot_verify() in ref/refcodec.hpp on OpenSSL EC arithmetic; every intermediate m_k is compared with the BIP341 branch hash", "size-invalid control blocks are C03's refusal cases (checked there)"],
+                summary="%d commitments, %d Iterate() steps, %d sessions" % (r["cases"], r["iterate_steps"], sess_tap), infra_error=vac)
+
+
+def _lazy(modname, fn):
+    def f(ctx, *a):
+        import importlib
+        return getattr(importlib.import_module(modname), fn)(ctx, *a)
+    return f
+
+
 PROPS = {
+    "C06": dict(targets=["tap", "btcdeb"], run=_lazy("c06_tap", "run"), replay=_lazy("c06_tap", "replay")),
+    "C03": dict(targets=["mc_spend"], run=run_c03, replay=replay_engine("mc_spend")),
+    "C05": dict(targets=["mc_spend"], run=run_c05, replay=replay_engine("mc_spend")),
     "C10": dict(targets=["mc_bounds"], run=run_c10, replay=replay_engine("mc_bounds")),
     "C17": dict(targets=["mc_bounds"], run=run_c17, replay=replay_engine("mc_bounds")),
     "C18": dict(targets=["mc_bounds"], run=run_c18, replay=replay_engine("mc_bounds")),
